@@ -109,6 +109,8 @@ INDEX_POOLS = {
     # name: (class spec, labels, applicable key names)
     'int': ('Index', [3, -1, 2, 0], ('none', 'neg-array', 'mod2-array', 'abs-array', 'const-array', 'identity-index')),
     'intGO': ('IndexGO', [3, -1, 2, -2], ('none', 'abs-array', 'mod2-array')),
+    # positions: in their natural order these are the labels of an auto-supplied index
+    'pos': ('Index', [0, 1, 2, 3], ('none', 'neg-array', 'mod2-array', 'const-array', 'identity-index')),
     'float': ('Index', [1.5, -2.0, 0.25, -0.25], ('none', 'neg-array', 'abs-array', 'identity-index')),
     'str': ('Index', ['b', 'A', 'a', 'Bc'], ('none', 'lower-array', 'len-array', 'const-array', 'identity-index')),
     'date': ('IndexDate', ['2020-03-01', '2019-12-31', '2020-01-15', '2020-02-29'], ('none', 'const-array', 'identity-index')),
@@ -369,6 +371,15 @@ def check_frame_labels_case(p):
     area = f"{PID}:Frame.{p['op']}"
     desc = f"{cls.__name__}[{''.join(kinds)} layout {p.get('layout')}] labels {labels}.{p['op']}(ascending={p['ascending']}, key={p['key']})"
     target = f
+    if p.get('auto_index'):
+        # the same rows under the auto-supplied positional index (labels 0..n-1 held without a label map): a key function still decides the order
+        if not rows_sorted or hier or sorted(labels) != list(range(len(labels))) or labels != sorted(labels):
+            return None, False
+        f = f.relabel(index=sf.IndexAutoFactory)
+        if f.index._map is not None:
+            return None, False
+        target = f
+        desc = 'auto index: ' + desc
     if p.get('grown'):
         # the same frame reached by growth: all but the last column built (and their label caches read), the last column added, and the sort is the
         # FIRST operation after the growth.  `f` (built in one go) is only the reference for the observations.
@@ -613,6 +624,10 @@ def expand(case, tier):
         if not rows_sorted:
             for asc in (True, False):
                 yield dict(area=area, op=case['op'], pool=case['pool'], order=case['order'], kinds=case['kinds'], layout=None, ascending=asc, key='none', cls='FrameGO', grown=True)
+        else:
+            for key in keys:
+                for asc in (True, False):
+                    yield dict(area=area, op=case['op'], pool=case['pool'], order=case['order'], kinds=case['kinds'], layout=None, ascending=asc, key=key, cls='Frame', auto_index=True)
     elif area == 'frame_values':
         axis = case['axis']
         names = [nm for nm in case['position'] if nm in case['patterns']]
